@@ -93,6 +93,10 @@ def corpus():
               ["-v", "kcolor", "3", "@ODD_GML"], ["-of", "latex", "op", "@ODD_GML", "-T", "shuffle"]):
         out.append(("cnfgen", t, ""))
     out.append(("pbgen", ["-of", "latex", "kcolor", "3", "@ODD_GML"], ""))
+    # long command lines (echoed in the header)
+    out.append(("cnfgen", ["and", "2", "1"] + ["-T", "none"] * 14 + ["-T", "shuffle"], ""))
+    out.append(("pbgen", ["tseitin", "random", "gnm", "8", "10", "addedges", "2", "splitedges", "1", "plantclique", "3"], ""))
+    out.append(("cnfgen", ["vdw", "6"] + ["2"] * 40, ""))
     text = "p cnf 6 5\n1 -2 3 0\n-1 4 0\n5 6 0\n-3 -4 -5 0\n2 0\n"
     for flags in ([], ["-p"], ["-v"], ["-c"], ["-p", "-c"]):
         out.append(("cnfshuffle", flags, text))
@@ -173,9 +177,15 @@ def case_processes(ctx, lo, hi, seeds, verbose_every):
                 if i % 4 == 0 or argv_tail != list(tail):
                     # the same moment of the wall clock is no argument either: the last noon of a year, the first of the next
                     runs += [("0", cwds[0], 1798718400.0), ("0", cwds[0], 1798804800.0)]
+                if i % 4 == 1 or len(" ".join(argv_tail)) > 60:
+                    # ... nor is the size of somebody's terminal window (COLUMNS / LINES are exported by interactive shells)
+                    runs += [("0", cwds[0], None, {"COLUMNS": "40", "LINES": "10"}), ("0", cwds[0], None, {"COLUMNS": "200", "LINES": "60"})]
                 for k, run in enumerate(runs):
                     hs, cwd = run[0], run[1]
                     clock = run[2] if len(run) > 2 else None
+                    extra_env = run[3] if len(run) > 3 else {}
+                    if extra_env:
+                        ctx.count("terminal_size_runs")
                     sp = os.path.join(scratch, "saved.kthlist")      # same path every time: it is echoed in the header
                     at = [sp if t == "SAVEPATH" else t for t in argv_tail]
                     argv = (seed_args(tool, seed) if seed is not None else []) + opts + at
@@ -184,7 +194,7 @@ def case_processes(ctx, lo, hi, seeds, verbose_every):
                     if clock is not None:
                         ctx.count("pinned_clock_runs")
                     try:
-                        o = spawn(tool, argv, stdin_text=stdin_text, cwd=cwd, env={"PYTHONHASHSEED": hs}, timeout=300, clock=clock)
+                        o = spawn(tool, argv, stdin_text=stdin_text, cwd=cwd, env=dict({"PYTHONHASHSEED": hs}, **extra_env), timeout=300, clock=clock)
                     except Exception as e:      # noqa: BLE001 - a watchdog firing is inconclusive, not a violation
                         ctx.problems.append({"kind": "spawn-failed", "case": ctx.case, "traceback": repr(e)})
                         continue
@@ -352,10 +362,35 @@ def case_library(ctx, rseed):
     import cnfgen.graphs as cg
     r = ctx.rng("c07lib", rseed)
 
+    def meddle():
+        # between two calls another caller of the documented helper functions edits, in place, whatever lists they hand out
+        import cnfgen.families.randomformulas as rf
+        import cnfgen.families.randomkxor as rx
+        st = random.getstate()
+        try:
+            for (k, n) in ((2, 4), (2, 5), (3, 5), (3, 6), (3, 8)):
+                for helper, args in ((getattr(rf, "all_clauses", None), (k, n, [])), (getattr(rf, "sample_clauses", None), (k, n, 3, [])),
+                                     (getattr(rx, "all_good_parities", None), (k, n, [])), (getattr(rx, "sample_parities", None), (k, n, 2, []))):
+                    if helper is None:
+                        continue
+                    try:
+                        for item in list(helper(*args))[:2000]:
+                            if isinstance(item, list):
+                                item.append(99)
+                                item.reverse()
+                            elif isinstance(item, tuple) and item and isinstance(item[0], list):
+                                item[0].append(99)
+                        ctx.count("helper_results_edited_by_another_caller")
+                    except Exception:       # noqa: BLE001 - the helpers' signatures are not part of any statement
+                        pass
+        finally:
+            random.setstate(st)
+
     def twice(label, fn, state):
         s = r.choice(SEEDS + [r.randint(0, 10 ** 9), "a string seed"])
         random.seed(r.random())
         st1, A = ctx.call(fn, s)
+        meddle()
         random.seed(r.random())
         st2, B = ctx.call(fn, s)
         ctx.count("library_double_calls")
